@@ -300,3 +300,67 @@ def make_batch_pred(prop):
                 res[ci] = True
         return res
     return batch
+
+
+def pred_c09(case, impl, model, ctx):
+    """implementation only: every frame carries the configured ids, counters are consecutive mod 65536 restarting at 1 after a
+    reset, the version byte is the batch's version when the batch has one, the reported counter is the last frame's"""
+    dev = stream = q = 0
+    vers = {}
+    for o, l in zip(case.ops, impl):
+        if l.startswith("CRASH"):
+            return False
+        w = o.split(" ")
+        if w[0] == "pkt":
+            vers[w[1]] = int(w[3])
+        if w[0] != "enc" or w[1] != "e":
+            continue
+        if w[2] == "dev":
+            dev, q = int(w[3]) % 65536, 0
+        elif w[2] == "stream":
+            stream, q = int(w[3]) % 256, 0
+        elif w[2] == "restart":
+            q = 0
+        elif w[2] == "seq":
+            if l != "seq %d" % q:
+                return False
+        elif w[2] == "encode":
+            if not l.startswith("frames "):
+                return False
+            bv = {vers.get(i) for i in w[5:]}
+            for f in l.split(" ")[2:]:
+                b = bytes.fromhex(f[:16])
+                q = (q + 1) % 65536
+                if int.from_bytes(b[2:4], "big") != dev or b[5] != stream or int.from_bytes(b[6:8], "big") != q or b[1] != 0:
+                    return False
+                if len(bv) == 1 and b[0] != list(bv)[0] % 256:
+                    return False
+    return True
+
+
+def pred_c10(case, impl, model, ctx):
+    """implementation only: the frames of the used encoder equal those of the fresh one apart from a constant counter offset"""
+    if any(l.startswith("CRASH") for l in impl) or len(impl) < len(case.ops):
+        return False
+    used = fresh = None
+    k = None
+    for o, l in zip(case.ops, impl):
+        w = o.split(" ")
+        if w[0] == "enc" and w[1] == "e" and w[2] == "seq":
+            k = int(l.split(" ")[1]) if l.startswith("seq ") else None
+        if w[0] == "enc" and w[2] == "encode":
+            if w[1] == "e":
+                used = l
+            elif w[1] == "f":
+                fresh = l
+    if used is None or fresh is None or k is None:
+        return None
+    fu, ff = used.split(" ")[2:], fresh.split(" ")[2:]
+    if len(fu) != len(ff):
+        return False
+    for a, b in zip(fu, ff):
+        if a[:12] != b[:12] or a[16:] != b[16:]:
+            return False
+        if (int(b[12:16], 16) + k) % 65536 != int(a[12:16], 16):
+            return False
+    return True
